@@ -131,14 +131,16 @@ Section Sim.
 
   Lemma do_push_nofault c pay : snd (do_push c pay) = false.
   Proof.
-    unfold do_push. destruct (negb (cact c) && negb (cidl c =? 0)); [|reflexivity].
+    unfold do_push. destruct (push_blocked c); [reflexivity|].
+    destruct (negb (cact c) && negb (cidl c =? 0)); [|reflexivity].
     pose proof (id2buf_no_fault (ccid c) (cidl c)) as Hn.
     destruct (id2buf (ccid c) (cidl c)) as [[bs u]| |]; try reflexivity. congruence.
   Qed.
 
   Lemma do_finish_nofault c : snd (do_finish c) = false.
   Proof.
-    unfold do_finish. destruct (negb (cact c) && negb (cidl c =? 0)); [|reflexivity].
+    unfold do_finish. destruct (push_blocked c); [reflexivity|].
+    destruct (negb (cact c) && negb (cidl c =? 0)); [|reflexivity].
     pose proof (id2buf_no_fault (ccid c) (cidl c)) as Hn.
     destruct (id2buf (ccid c) (cidl c)) as [[bs u]| |]; try reflexivity. congruence.
   Qed.
